@@ -159,6 +159,7 @@ def plan(tier, seed):
     st_chunks, cov = fscommon.state_chunks(tier, seed, extra_roots=fscommon.SEED_STATES, per_chunk=4)
     thin = 9 if tier == 'quick' else 2
     chunks = [('std', c, thin) for c in st_chunks]
+    chunks.append(('fd0', [], 0))
     cov['patterns'] = len(fspat.pattern_set('quick'))
     cov['pattern_thinning'] = 'per flag set every %d-th pattern, offset rotating with the flag set' % thin
     cov['flagsets'] = FLAGSETS
@@ -177,9 +178,40 @@ def plan(tier, seed):
     }
 
 
+FD0_TREE = ['a', 'd/', 'd/x', '.h']
+FD0_PATS = ['a', '[a]', 'd/x', 'd/*', '*', 'zz', 'd', 'd/', '.h']
+
+
+def check_fd0(res):
+    """Descriptor number 0 is a directory descriptor like any other: the same results as through the path."""
+    sc = fsx.Scratch()
+    saved = os.dup(0)
+    try:
+        sc.load(fsx.from_desc(FD0_TREE))
+        fd = os.open(sc.root, os.O_RDONLY | os.O_DIRECTORY)
+        os.dup2(fd, 0)
+        os.close(fd)
+        for p in FD0_PATS:
+            for fs in ('GE', 'GEK', 'GDE'):
+                res.n['evaluations'] += 1
+                res.n['distinct_nontrivial'] += 1
+                a = sorted(G.glob(p, flags=fscommon.gflags(fs), root_dir=sc.root))
+                b = sorted(G.glob(p, flags=fscommon.gflags(fs), dir_fd=0))
+                res.outcomes.add('fd0-equal' if a == b else 'fd0-differs')
+                if a != b:
+                    res.add_violation(ID, run.viol('descriptor-zero', {'tree': FD0_TREE, 'patterns': p, 'flags': fs}, a, b))
+    finally:
+        os.dup2(saved, 0)
+        os.close(saved)
+        sc.close()
+
+
 def run_chunk(chunk):
     kind, descs, thin = chunk
     res = run.ChunkResult()
+    if kind == 'fd0':
+        check_fd0(res)
+        return res
     sc = fsx.Scratch()
     try:
         pats = fspat.pattern_set('quick')
@@ -195,6 +227,10 @@ def replay(v):
     """Re-run the whole state in isolation (the scratch root path is part of absolute patterns, so cases are re-derived)."""
     inp = v['input']
     r = run.ChunkResult()
+    if v['kind'] == 'descriptor-zero':
+        check_fd0(r)
+        hit = [x for x in r.viol if x['input'] == run.jsonable(inp)]
+        return {'violates': bool(hit), 'observed': hit[0]['observed'] if hit else 'ok'}
     sc = fsx.Scratch()
     try:
         pats = fspat.pattern_set('quick')
